@@ -306,7 +306,7 @@ def _same_units(got, want):
 
 
 # ------------------------------------------------------------------------ generator
-GAPS = [1, 2, 3, 5, 8]
+GAPS = [1, 2, 3, 5, 8, 1, 2, 30, 49]      # hours; some gaps are longer than a day
 
 
 def gen_events(tape, n_cons, n_events, *, strictly_increasing=None, out_of_range=True, halves=True,
